@@ -21,7 +21,7 @@ def observe_path(frame, use_kaitai, scribble=False):
     try:
         with warnings.catch_warnings():
             warnings.simplefilter("ignore")
-            b = Burst.from_hytera_ipsc(IpSiteConnectProtocol.from_bytes(frame) if use_kaitai else gen.as_caller_bytes(frame, frame[4] + frame[40]))
+            b = Burst.from_hytera_ipsc(IpSiteConnectProtocol.from_bytes(frame) if use_kaitai else gen.as_caller_buffer(frame, frame[4] + frame[40]))
         o["cls"] = type(b).__name__
         o["octets"] = list(b.full_bits.tobytes())
         o["bits"] = core.digest(o["octets"])
